@@ -150,6 +150,13 @@ fn recycle(gens: Vec<Gen>) {
     });
 }
 
+/// Runs one empty coroutine so that the coroutine library performs its one-time process setup (it installs
+/// its own SIGSEGV / SIGBUS handlers); a harness that wants its own fatal-signal handlers installs them afterwards.
+pub fn warmup() {
+    let mut g: Gen = generator::Gn::new_opt(0x1000, || {});
+    g.resume();
+}
+
 fn resume(g: &mut Gen) {
     IN_CO.with(|c| c.set(true));
     g.resume();
